@@ -317,40 +317,21 @@ def step (s : List Nat) : Step :=
     else if isDigit c || (c == 46 && headIs isDigit t) then .tok (1 + ppLen t)
     else stepStr c (c :: t)
 
-/-- offset of the beginning of the line that contains offset `abs`: `while (input < line && line[-1] != '\n') line--;`
-    (`cur` = offset of the head of the list, `start` = candidate so far) -/
-def lineStartAux : List Nat → Nat → Nat → Nat → Nat
-  | [], _, _, start => start
-  | c :: t, cur, abs, start =>
-    if cur < abs then lineStartAux t (cur + 1) abs (if c = 10 then cur + 1 else start) else start
-
-/-- unicode.c `display_width(line, loc - line)`: decodes until `len` bytes are covered; `false` = decode_utf8 fails -/
-def dispOk : Nat → List Nat → Nat → Bool
-  | 0, _, _ => true
-  | _ + 1, _, 0 => true
-  | fuel + 1, s, len + 1 =>
-    match decode s with
-    | .error _ => false
-    | .ok (_, n) => dispOk fuel (s.drop n) (len + 1 - n)
-
-/-- `verror_at` measures the text of the line up to the error column with `display_width`; when that text holds a byte
-    sequence `decode_utf8` rejects, a nested `error_at(…, "invalid UTF-8 sequence")` (same line) takes the place of the message -/
-def reported (text : List Nat) (abs : Nat) (m : Msg) : Msg :=
-  let ls := lineStartAux text 0 abs 0
-  if dispOk (abs + 1) (text.drop ls) (abs - ls) then m else .invalidUtf8
-
-/-- the loop of `tokenize`; `pos` = offset of the current position in `text`, `line` = 1 + number of '\n' before it -/
-def loop (text : List Nat) : Nat → List Nat → Nat → Nat → Nat → Outcome
-  | 0, _, _, _, _ => .fuel
-  | _ + 1, [], _, _, n => .ok n
-  | fuel + 1, c :: t, pos, line, n =>
+/-- the loop of `tokenize`; `line` = 1 + number of '\n' before the current position.
+    (Until fix N1 `verror_at` could replace the message: `display_width` decoded the text of the line up to the error
+    column with the erroring decoder.  display_width now counts an undecodable byte as one column, so the message printed
+    is the message of the site.) -/
+def loop : Nat → List Nat → Nat → Nat → Outcome
+  | 0, _, _, _ => .fuel
+  | _ + 1, [], _, n => .ok n
+  | fuel + 1, c :: t, line, n =>
     match step (c :: t) with
-    | .skip k => loop text fuel ((c :: t).drop k) (pos + k) (line + countLF ((c :: t).take k)) n
-    | .tok k => loop text fuel ((c :: t).drop k) (pos + k) (line + countLF ((c :: t).take k)) (n + 1)
-    | .err off m => .diag (line + countLF ((c :: t).take off)) (reported text (pos + off) m)
+    | .skip k => loop fuel ((c :: t).drop k) (line + countLF ((c :: t).take k)) n
+    | .tok k => loop fuel ((c :: t).drop k) (line + countLF ((c :: t).take k)) (n + 1)
+    | .err off m => .diag (line + countLF ((c :: t).take off)) m
 
 /-- `tokenize(file)` on the text -/
-def scan (text : List Nat) : Outcome := loop text (text.length + 1) text 0 1 0
+def scan (text : List Nat) : Outcome := loop (text.length + 1) text 1 0
 
 /-- `tokenize_file(path)` on the bytes of the file -/
 def lexFile (bytes : List Nat) : Outcome :=
